@@ -11,7 +11,7 @@ R-RAISEMSG  the message of each raise in an accessor is built without an operati
 import ast
 from ..model import AnalysisError, src, loc, call_name, dotted, qualname, norm_stmt, is_const, params_of
 from .. import flow
-from . import common, solveprog
+from . import common, solveprog, translate
 
 LEVEL = "other"
 EXPLANATION = ("Path rules over the syntax trees of the 6 value/dual accessors, the solve root, both back-ends' solve methods, "
@@ -557,6 +557,7 @@ def run(ctx):
     na = r_unsolved(ctx)
     r_raise_message(ctx)
     r_operand_access(ctx)
+    translate.r_evalshape(ctx)    # every term of a combination is evaluated (through its accessor), whatever its coefficient: an unsolved leaf always raises
     r_none(ctx)
     solveprog.r_solve_program(ctx, {"none"})
     no = r_options(ctx)
